@@ -16,13 +16,12 @@ def LProto.toNat : LProto → Nat
 
 def bInt (b : Bool) : Int := if b then 1 else 0
 
-def Chain.encode (c : Chain) : List Int :=
-  [bInt c.transportTLS, bInt c.terminate, bInt c.http,
-   (match c.alpn with | .any => 0 | .istio => 1 | .plain => 2),
-   (match c.sock with | .none => 0 | .tls => 1 | .mtls => 2)]
+def Chain.encode (c : Chain) : List Int × List String :=
+  ([bInt c.transportTLS, bInt c.terminate, bInt c.http,
+    (match c.sock with | .none => 0 | .tls => 1 | .mtls => 2)], c.alpn)
 
-/-- The model's table in the generated file's format. -/
-def modelTable : List (Nat × Nat × List (List Int)) :=
+/-- The model's table in the generated file's format (with the real application-protocol lists). -/
+def modelTable : List (Nat × Nat × List (List Int × List String)) :=
   MTLS.all.flatMap fun m => LProto.all.map fun p => (m.toNat, p.toNat, (chains m p).map Chain.encode)
 
 /-- The model of the filter-chain table is the real table, on the whole domain. -/
